@@ -41,15 +41,15 @@ func traverse(context Context, matchingNode *CandidateNode, operation *Operation
 	if matchingNode.Tag == "!!null" && operation.Value != "[]" && !context.DontAutoCreate {
 		log.Debugf("Guessing kind")
 		// we must have added this automatically, lets guess what it should be now
+		newKind := MappingNode
 		switch operation.Value.(type) {
 		case int, int64:
 			log.Debugf("probably an array")
-			matchingNode.Kind = SequenceNode
+			newKind = SequenceNode
 		default:
 			log.Debugf("probably a map")
-			matchingNode.Kind = MappingNode
 		}
-		matchingNode.Tag = ""
+		becomeEmptyContainer(matchingNode, newKind)
 	}
 
 	switch matchingNode.Kind {
@@ -71,6 +71,17 @@ func traverse(context Context, matchingNode *CandidateNode, operation *Operation
 	default:
 		return list.New(), nil
 	}
+}
+
+// becomeEmptyContainer turns a node that is tagged !!null into the container a path through it needs.
+// A null has no children: a node of another container kind that was merely re-tagged !!null must not keep the
+// children of its old kind (the elements of a sequence are not the key/value pairs of a map).
+func becomeEmptyContainer(node *CandidateNode, kind Kind) {
+	if node.Kind != kind && (node.Kind == MappingNode || node.Kind == SequenceNode) {
+		node.Content = nil
+	}
+	node.Kind = kind
+	node.Tag = ""
 }
 
 // an alias made by `alias = "name"` carries a name only, not the node the name stands for
@@ -141,12 +152,12 @@ func traverseArrayIndices(context Context, matchingNode *CandidateNode, indicesT
 	if matchingNode.Tag == "!!null" && !context.DontAutoCreate {
 		log.Debugf("OperatorArrayTraverse got a null - turning it into an empty array")
 		// auto vivification
-		matchingNode.Tag = ""
-		matchingNode.Kind = SequenceNode
+		newKind := SequenceNode
 		//check that the indices are numeric, if not, then we should create an object
 		if len(indicesToTraverse) != 0 && indicesToTraverse[0].Tag != "!!int" {
-			matchingNode.Kind = MappingNode
+			newKind = MappingNode
 		}
+		becomeEmptyContainer(matchingNode, newKind)
 	}
 
 	if matchingNode.Kind == AliasNode {
